@@ -122,21 +122,30 @@ def run(ctx):
     # ---------------- engine `misuse.stream`: the other guards -------------------------------------------------
     eng = ctx.engine('misuse.stream')
 
+    queue = []
+
     def check(name, thunk, model_line, misuse, **rep):
-        eng['cases'] += 1
+        # the implementation is run now (closures capture loop variables), the model lines are batched into one driver call
         got, detail = classify(thunk)
-        model = run_driver([model_line], 'C11s')[0] if model_line else None
-        ctx.count('misuse.stream', name)
-        if model is not None:
-            m = 'value' if model.startswith('order') or model == 'value' else model
-            if got != m:
-                ctx.mismatch('misuse.stream', dict(name=name, **rep), got + ': ' + str(detail)[:80], model)
-            else:
-                eng['exact'] += 1
-        if misuse and got != 'ValueError':
-            ctx.violation('%s: misuse did not raise ValueError' % name, outcome=got, signature=None, **rep)
-        if not misuse and got != 'value':
-            ctx.violation('%s: a valid call was rejected' % name, outcome=got + ': ' + str(detail)[:120], **rep)
+        queue.append((name, model_line, misuse, rep, got, detail))
+
+    def flush():
+        lines = [q[1] for q in queue if q[1]]
+        outs = iter(run_driver(lines, 'C11s') if lines else [])
+        for name, model_line, misuse, rep, got, detail in queue:
+            eng['cases'] += 1
+            model = next(outs) if model_line else None
+            ctx.count('misuse.stream', name)
+            if model is not None:
+                m = 'value' if model.startswith('order') or model == 'value' else model
+                if got != m:
+                    ctx.mismatch('misuse.stream', dict(name=name, **rep), got + ': ' + str(detail)[:80], model)
+                else:
+                    eng['exact'] += 1
+            if misuse and got != 'ValueError':
+                ctx.violation('%s: misuse did not raise ValueError' % name, outcome=got, signature=None, **rep)
+            if not misuse and got != 'value':
+                ctx.violation('%s: a valid call was rejected' % name, outcome=got + ': ' + str(detail)[:120], **rep)
 
     for _ in range(ctx.budget(6, 30)):
         n = rng.randint(3, 6)
@@ -145,6 +154,29 @@ def run(ctx):
     for n in (1, 2):
         check('multicomplex n<=2', lambda: nd.Derivative(np.exp, n=n, method='multicomplex')(1.0),
               'outcome Derivative multicomplex %d 2 0 0 1 1 100' % n, False, n=n)
+    # the same misuse reached by attribute assignment on an object that was valid (and used) before
+    def reconfigured(cls_kw, assign, x, use_first=True):
+        def thunk():
+            d = nd.Derivative(np.exp, **cls_kw)
+            if use_first:
+                d(1.0)
+            for k_, v_ in assign:
+                setattr(d, k_, v_)
+            return d(x)
+        return thunk
+    for n0 in (1, 2):
+        for n1 in (3, 4, 6):
+            for uf in (True, False):
+                check('multicomplex n>2 by assignment', reconfigured(dict(n=n0, method='multicomplex'), [('n', n1)], 1.0, uf),
+                      'outcome Derivative multicomplex %d 2 0 0 1 1 100' % n1, True, n_before=n0, n_after=n1, used_before=uf)
+    for m0 in ('central', 'complex'):
+        check('multicomplex n>2 by assignment of method', reconfigured(dict(n=3, method=m0), [('method', 'multicomplex')], 1.0),
+              'outcome Derivative multicomplex 3 2 0 0 1 1 100', True, method_before=m0)
+    for m1 in ('complex', 'multicomplex'):
+        check('complex x by assignment of method', reconfigured(dict(n=1, method='central'), [('method', m1)], 1.0 + 0.5j),
+              'outcome Derivative %s 1 2 1 0 1 1 100' % m1, True, method_after=m1)
+        check('valid after assignment of method', reconfigured(dict(n=1, method='central'), [('method', m1)], 1.0),
+              'outcome Derivative %s 1 2 0 0 1 1 100' % m1, False, method_after=m1)
     # fewer steps than the rule needs
     for _ in range(ctx.budget(25, 200)):
         m = rng.choice(['central', 'forward', 'backward', 'complex'])
@@ -194,6 +226,7 @@ def run(ctx):
         check('Limit path', lambda: Limit(lambda z: np.sin(z) / z, path=path)(0.0),
               'cpath %d %d' % (path == 'spiral', path == 'radial'), path not in ('radial', 'spiral'), path=path)
 
+    flush()
     ctx.search['rule'] = ('the complete table class x method x {complex x, complex f, both, neither} x dimension 1..3 x n x order, and a '
                           'malformed stream for the other guards (multicomplex n>2, too few steps, wrong number of values, directionaldiff '
                           'sizes, fd_weights / fd_derivative sizes, Residue order <= pole_order, unknown path); every case is executed on the '
